@@ -1228,7 +1228,14 @@ impl<'a> Interp<'a> {
         let expect_removed: Vec<u32> = preds.iter().filter(|p| !p.1).map(|p| p.0).collect();
         let got_removed: Vec<u32> = rr.removed.iter().map(|o| o.id).collect();
         let kept = preds.iter().filter(|p| p.1).count();
-        if expect_removed != got_removed || kept != rr.retained {
+        // the statement fixes which objects are handed back, not their order
+        let (mut er, mut gr) = (expect_removed.clone(), got_removed.clone());
+        er.sort();
+        gr.sort();
+        if expect_removed != got_removed && er == gr {
+            self.label("retain:removed-in-another-order");
+        }
+        if er != gr || kept != rr.retained {
             self.flag(
                 "retain-result",
                 &["C09"],
